@@ -4,7 +4,7 @@ use std::borrow::Cow;
 
 use winnow::{
     ascii::{space0, space1},
-    combinator::{alt, cond, cut_err, opt, preceded, repeat, terminated, trace},
+    combinator::{alt, cond, cut_err, not, opt, preceded, repeat, terminated, trace},
     error::StrContext,
     stream::{AsChar, Stream, StreamIsPartial},
     token::{one_of, take_while},
@@ -55,7 +55,11 @@ where
         let posts = repeat(
             0..,
             preceded(
-                take_while(1.., b" \t"),
+                // line only with whitespaces is not a posting.
+                (
+                    take_while(1.., b" \t"),
+                    not(character::line_ending_or_eof),
+                ),
                 cut_err(Deco::decorate_parser(posting::posting)),
             ),
         )
